@@ -45,12 +45,14 @@ func NewOrderedPartition(n, m int, vertexClasses [][]int) *CanonicalOrderedParti
 		binDividers = binDividers[:len(vertexClasses)]
 		index := 0
 		for i := range vertexClasses {
+			start := index
 			for j := range vertexClasses[i] {
 				v := vertexClasses[i][j]
 				order[index] = v
-				inCell[v] = j
+				inCell[v] = i
 				index++
 			}
+			ints.Sort(order[start:index])
 			binDividers[i] = index
 		}
 	}
@@ -59,8 +61,10 @@ func NewOrderedPartition(n, m int, vertexClasses [][]int) *CanonicalOrderedParti
 	for i := range binAges {
 		binAges[i] = 0
 	}
-	binsToCheck := make([]int, 1, n)
-	binsToCheck[0] = 0
+	binsToCheck := make([]int, len(binDividers), n)
+	for i := range binsToCheck {
+		binsToCheck[i] = i
+	}
 	value := make([]int, 0, m)
 	return &CanonicalOrderedPartition{order: order, binDividers: binDividers, binAges: binAges, binsToCheck: binsToCheck, value: value, inCell: inCell}
 }
@@ -95,12 +99,14 @@ func (op *CanonicalOrderedPartition) Reset(n, m int, vertexClasses [][]int) {
 		op.binDividers = op.binDividers[:len(vertexClasses)]
 		index := 0
 		for i := range vertexClasses {
+			start := index
 			for j := range vertexClasses[i] {
 				v := vertexClasses[i][j]
 				op.order[index] = v
-				op.inCell[v] = j
+				op.inCell[v] = i
 				index++
 			}
+			ints.Sort(op.order[start:index])
 			op.binDividers[i] = index
 		}
 	}
@@ -111,8 +117,10 @@ func (op *CanonicalOrderedPartition) Reset(n, m int, vertexClasses [][]int) {
 	}
 
 	if n > 0 {
-		op.binsToCheck = op.binsToCheck[:1]
-		op.binsToCheck[0] = 0
+		op.binsToCheck = op.binsToCheck[:len(op.binDividers)]
+		for i := range op.binsToCheck {
+			op.binsToCheck[i] = i
+		}
 	}
 
 	op.value = op.value[:0]
